@@ -1,7 +1,9 @@
 import MidoProofs.SrcTie.Vlq
+import MidoProofs.SrcTie.Tracks
 #print axioms Mido.src_vlq_loop1
 #print axioms Mido.src_vlq_hi_loop
 #print axioms Mido.src_encode_variable_int
 #print axioms Mido.src_encode_variable_int_neg
 #print axioms Mido.src_read_vlq_loop
 #print axioms Mido.src_read_variable_int
+#print axioms Mido.src_fix_end_of_track
